@@ -12,6 +12,8 @@ Next == /\ l <= Len(Rec)
                 /\ IF ev.displayed = Displayed(cfg, run) THEN TRUE ELSE Why("displayed", Displayed(cfg, run), ev.displayed)
                 /\ IF cfg.cap = 0 \/ Len(ev.displayed) <= cfg.cap THEN TRUE ELSE Why("cap", cfg.cap, Len(ev.displayed))
                 /\ IF ev.rc = ExitIntended(cfg, run) THEN TRUE ELSE Why("exit", ExitIntended(cfg, run), ev.rc)
+                \* an input with a framing error in a packet the scanner reaches: the fatal error is reported (also when a filter skips that packet)
+                /\ IF ("must_fatal" \in DOMAIN ev /\ ev.must_fatal) => run.fatal THEN TRUE ELSE Why("fatal_reported", TRUE, run.fatal)
                 \* a statistics file of another input is reported as not matching, the run's own file as matching (C15 round trip)
                 /\ IF cfg.mute \/ ev.mismatch_reported = run.mismatch THEN TRUE ELSE Why("mismatch_reported", run.mismatch, ev.mismatch_reported)
              \* the muted and the unmuted run of one input, mode and option set: same error total, same exit status
